@@ -5,6 +5,7 @@ mod c06;
 mod c07;
 mod c11;
 mod c13;
+mod c14;
 mod c15;
 mod c16;
 mod c17;
@@ -128,6 +129,7 @@ fn main() {
             "C07" | "C08" => c07::replay(&prop, &line, &mut out),
             "C11" => c11::replay(&line, &mut out),
             "C13" => c13::replay(&line, &mut out),
+            "C14" => c14::replay(&line, &mut out),
             "C15" => c15::replay(&line, &mut out),
             "C16" => c16::replay(&line, &mut out),
             "C17" => c17::replay(&line, &mut out),
@@ -150,6 +152,7 @@ fn main() {
         "C07" | "C08" => c07::run(&prop, &opts, &mut out),
         "C11" => c11::run(&opts, &mut out),
         "C13" => c13::run(&opts, &mut out),
+        "C14" => c14::run(&opts, &mut out),
         "C15" => c15::run(&opts, &mut out),
         "C16" => c16::run(&opts, &mut out),
         "C17" => c17::run(&opts, &mut out),
